@@ -288,11 +288,24 @@ class Summariser:
             # normal flow through the body (+ else, finally); each handler is an extra path from the state at entry
             fin = list(s.finalbody)
             self._block(list(s.body) + list(s.orelse) + fin, self._fork(p), nxt)
+            # what the guarded body does (summarised once, from the state at entry): shown inside the handler paths
+            guarded = None
+            try:
+                sub = Summariser(self.bound, in_loop=self.in_loop)
+                sub._block(list(s.body), self._fork(p), lambda r: sub._end(r, "fall", None, None))
+                best = max(sub.out, key=lambda r: len(r.effects)) if sub.out else None
+                if best is not None:
+                    guarded = [e if isinstance(e, ast.stmt) else ast.Expr(e) for e in best.effects[len(p.effects):]]
+                    if best.kind == "return" and best.value is not None:
+                        guarded.append(ast.Expr(best.value))
+            except PathBound:
+                guarded = None
             for h in s.handlers:
                 q = self._fork(p)
-                q.tests.append((ast.Call(func=ast.Name(id="except_", ctx=ast.Load()), args=[h.type] if h.type is not None else [], keywords=[]), True))
+                q.tests.append((ast.Call(func=ast.Name(id="except_", ctx=ast.Load()), args=[_subst(h.type, q.env)] if h.type is not None else [], keywords=[]), True))
                 # effects of the guarded body may have happened partially: record them as one opaque effect
-                q.effects.append(ast.copy_location(ast.Try(body=[_subst(x, q.env) for x in s.body], handlers=[], orelse=[], finalbody=[ast.Pass()]), s))
+                body_ = guarded if guarded else [_subst(x, q.env) for x in s.body]
+                q.effects.append(ast.copy_location(ast.Try(body=body_ or [ast.Pass()], handlers=[], orelse=[], finalbody=[ast.Pass()]), s))
                 _kill(q.env, norm._assigned_names(s.body))
                 if h.name:
                     _kill(q.env, {h.name})
